@@ -10,3 +10,18 @@ for f in sorted(glob.glob('/verif/evidence/*.json')):
         bad += 1
         print("INVALID", f, str(e)[:300])
 print("manifest valid; evidence files checked:", len(glob.glob('/verif/evidence/*.json')), "invalid:", bad)
+# every claimed check has a committed evidence file whose level equals the manifest's level_claimed.category
+import subprocess, os
+m = json.load(open('/verif/MANIFEST.json'))
+tracked = set(subprocess.run(['git', '-C', '/verif', 'ls-files', 'evidence'], capture_output=True, text=True).stdout.split())
+for c in m['checks']:
+    ef = c['evidence_file']
+    rel = ef[len('/verif/'):] if ef.startswith('/verif/') else ef
+    if not os.path.exists('/verif/' + rel):
+        print("MISSING evidence", rel); bad += 1; continue
+    if rel not in tracked:
+        print("UNTRACKED evidence", rel); bad += 1
+    ev = json.load(open('/verif/' + rel))
+    if ev.get('level') != c['level_claimed']['category']:
+        print("LEVEL mismatch", rel, ev.get('level'), c['level_claimed']['category']); bad += 1
+sys.exit(1 if bad else 0)
